@@ -43,12 +43,14 @@ Init == /\ desc = [o \in Obj |-> ReachD(0, FALSE)]
         /\ mem = [n \in 0..MaxN |-> Reach(J, n)]
 
 \* StarSet.generate(N, originstates=og)
+\* (a call with the range the object already has is a no-op ONLY if the origin states are present / absent as requested)
+HasOrigin(o) == OrigSet(TRUE) \subseteq st[o]
 Generate(o, N, og) ==
-  /\ N # desc[o].n
+  /\ (N # desc[o].n \/ og # HasOrigin(o))
   /\ desc' = [desc EXCEPT ![o] = ReachD(N, og)]
   /\ st' = [st EXCEPT ![o] = ReachTab[N] \cup OrigSet(og)]
   /\ UNCHANGED mem
-RegenerateSameN(o, N, og) == N = desc[o].n /\ UNCHANGED vars
+RegenerateSameN(o, N, og) == N = desc[o].n /\ og = HasOrigin(o) /\ UNCHANGED vars
 
 Summable(a, b) == /\ desc[a].kind = "reach" /\ desc[b].kind = "reach"
                   /\ desc[a].n + desc[b].n <= MaxN
